@@ -28,8 +28,8 @@ ASSUMPTIONS = ["reference: lib/regex_ref.py; 'at most depth_limit consecutive in
 STUBS = []
 BUDGET_S = {"quick": 500, "thorough": 2400}
 IFCONV = False
-REPLAYS_PER_LABEL = 30
-REPLAY_CAP = 3000
+REPLAYS_PER_LABEL = 3  # the label already carries the finding key (":greedy" or not), so sampling per label loses nothing
+REPLAY_CAP = 20000
 
 ALPHA = ["a", "b", "c"]
 PICS = ["high_quality_picture", "low_delay_picture", "high_quality_picture_fragment", "low_delay_picture_fragment"]
